@@ -483,7 +483,8 @@ sqrt_mpq(mpq_class& to, const mpq_class& from, const Rounding_Dir dir) {
   const mpz_class& from_b = gt1 ? from.get_den() : from.get_num();
   mpz_class& to_a = gt1 ? to.get_num() : to.get_den();
   mpz_class& to_b = gt1 ? to.get_den() : to.get_num();
-  Rounding_Dir rdir = gt1 ? dir : inverse(dir);
+  // Note: inverse() is not defined for ROUND_NOT_NEEDED.
+  Rounding_Dir rdir = (gt1 || round_not_needed(dir)) ? dir : inverse(dir);
   mul_2exp<To_Policy, From_Policy>(to_a, from_a,
                                    2*irrational_precision, ROUND_IGNORE);
   Result r_div
@@ -493,7 +494,25 @@ sqrt_mpq(mpq_class& to, const mpq_class& from, const Rounding_Dir dir) {
   mul_2exp<To_Policy, To_Policy>(to_b, to_b,
                                  irrational_precision, ROUND_IGNORE);
   to.canonicalize();
-  return (r_div != V_EQ) ? r_div : r_sqrt;
+  // Compose the relations of the two steps (e.g., with ROUND_IGNORE the
+  // division rounds up and the square root rounds down) ...
+  Result r = r_div | r_sqrt;
+  if ((r_div & V_EQ) == V_EMPTY || (r_sqrt & V_EQ) == V_EMPTY) {
+    r = r - V_EQ;
+  }
+  // ... and reverse the result if the reciprocal has been computed.
+  if (!gt1) {
+    const bool exact_lt = ((r & V_LT) != V_EMPTY);
+    const bool exact_gt = ((r & V_GT) != V_EMPTY);
+    r = r - V_NE;
+    if (exact_lt) {
+      r = r | V_GT;
+    }
+    if (exact_gt) {
+      r = r | V_LT;
+    }
+  }
+  return r;
 }
 
 PPL_SPECIALIZE_SQRT(sqrt_mpq, mpq_class, mpq_class)
